@@ -5,6 +5,7 @@ package main
 // raw and handler forms versus direct decoding of each document (implementation oracles).
 
 import (
+	"os"
 	"bytes"
 	"errors"
 	"fmt"
@@ -276,6 +277,17 @@ func c13Stream(c *cur) string {
 		readLoop(&chunkReader{data: []byte(stream), sizes: []int{7, 1, 64, 3, 1000, 2, 16}}, "CHUNKED ")
 		if len(notes) == 0 && (!sawEOF || strings.Join(got, "\x00") != strings.Join(want, "\x00")) {
 			notes = append(notes, fmt.Sprintf("CHUNKED reading through a reader that delivers several bytes per Read: got %d documents (EOF seen: %v), want %d", len(got), sawEOF, len(want)))
+		}
+	}
+	if len(notes) == 0 && !hasFail(s) && len(c.toks)%3 == 0 {
+		// an *os.File that cannot seek: everything is in the pipe before the first read
+		if pr, pw, perr := os.Pipe(); perr == nil {
+			go func() { pw.Write([]byte(stream)); pw.Close() }()
+			readLoop(pr, "PIPE ")
+			pr.Close()
+			if len(notes) == 0 && (!sawEOF || strings.Join(got, "\x00") != strings.Join(want, "\x00")) {
+				notes = append(notes, fmt.Sprintf("PIPE reading from an os.Pipe: got %d documents (EOF seen: %v), want %d", len(got), sawEOF, len(want)))
+			}
 		}
 	}
 	if len(notes) == 0 {
